@@ -17,6 +17,8 @@ type patEl struct {
 }
 
 type locPat struct {
+	anyfld int  // >= 0 with anyobj: field index f of every object (coarse: the heap model is untyped)
+	anyobj bool // `anyfield(T, f)`: the cells of field f of every object of struct type T
 	newobj bool // `newobjects`: every cell of every object allocated since the function was entered
 	ghost  string
 	base   string
@@ -37,6 +39,20 @@ func (e *Env) evalLoc(x Expr) *locPat {
 func (e *Env) tryLoc(x Expr) *locPat {
 	switch n := x.(type) {
 	case *ECall:
+		if n.Fun == "anyfield" && len(n.Args) == 2 {
+			t := e.c.goTypeOfExpr(n.Args[0], e.pkg)
+			si := e.c.reg.structOf(t)
+			id, ok := n.Args[1].(*EIdent)
+			if si == nil || !ok {
+				panic(genErr("anyfield(T, f): T must be a struct type and f a field name"))
+			}
+			for i, f := range si.fields {
+				if f.name == id.Name {
+					return &locPat{anyobj: true, anyfld: i, typ: f.typ}
+				}
+			}
+			panic(genErr("anyfield: %s has no field %s", t, id.Name))
+		}
 		if n.Fun == "ghost" && len(n.Args) == 1 {
 			if id, ok := n.Args[0].(*EIdent); ok {
 				if strings.HasSuffix(id.Name, "_all") {
@@ -134,6 +150,18 @@ func (e *Env) pointee(x Expr) *locPat {
 
 // matchRef: r designates the cell  pat.base / pat.elems / extra
 func matchRef(r string, pat *locPat, extra []int) string {
+	if pat.anyobj {
+		// r = (any object) / field / extra...
+		tail := app("rpath", r)
+		var conds []string
+		for j := len(extra) - 1; j >= 0; j-- {
+			conds = append(conds, "((_ is pcons) "+tail+")", eq(app("phd", tail), intLit(int64(extra[j]))))
+			tail = app("ptl", tail)
+		}
+		// (no condition on the rest of the path: the pointer may designate an object nested anywhere)
+		conds = append(conds, "((_ is pcons) "+tail+")", eq(app("phd", tail), intLit(int64(pat.anyfld))))
+		return and(conds...)
+	}
 	var els []patEl
 	els = append(els, pat.elems...)
 	for _, f := range extra {
